@@ -464,9 +464,14 @@ impl Dumper {
                 let dbg: Vec<Value> = body.var_debug_info.iter().filter_map(|d| d.local().map(|l| json!([l, d.name]))).collect();
                 let span = body.span.diagnostic();
                 let bj = serde_json::to_value(&body.blocks).unwrap();
+                // source position of every block's terminator ("file:line"), for replaying schedules under a debugger
+                let tspans: Vec<String> = body.blocks.iter().map(|b| {
+                    let sp = b.terminator.span;
+                    format!("{}:{}", sp.get_filename(), sp.get_lines().start_line)
+                }).collect();
                 self.emit(json!({"k":"fn","id":id,"name":name,"krate":krate,"kind":kind,"args":a,"fty":fty,
                     "locals":locals,"arg_count":body.arg_locals().len(),"spread_arg":body.spread_arg(),
-                    "dbg":dbg,"span":span,"blocks":bj,"dname":inst.def.name()}));
+                    "dbg":dbg,"span":span,"blocks":bj,"tspans":tspans,"dname":inst.def.name()}));
             }
         }
     }
